@@ -23,23 +23,24 @@ ObsTypTok == TypTok \cup {KwTyp, "object", "Any", "NoneType", "dict", "other"}
              \cup {"Opt:" \o t : t \in {"float", "ListStr", "LitStr", "LitInt", "UnionIntStr", "TupleIntStr", "Dotted", "object", "Any", "dict", "NoneType"}}
 
 \* ---- defaults --------------------------------------------------------------
-DefTok    == {"absent", "none", "int0", "intPos", "intNeg", "float", "float0", "boolT", "boolF", "strEmpty", "str", "code"}
+\* "strNum": a string whose text reads as another literal ("5", "True", "1e3", "None"): it must stay a str
+DefTok    == {"absent", "none", "int0", "intPos", "intNeg", "float", "float0", "boolT", "boolF", "strEmpty", "str", "strNum", "code"}
 ObsDefTok == DefTok \cup {"codeBare", "codeQ", "other"}
 
 \* which defaults make sense for which declared type (the supported domain of the quantifier)
 Compat(t) ==
   CASE t = "none"        -> {"absent", "none", "int0", "intPos", "intNeg", "float", "boolT", "boolF", "str", "code"}
-    [] t = "str"         -> {"absent", "str", "strEmpty"}
+    [] t = "str"         -> {"absent", "str", "strEmpty", "strNum"}
     [] t = "int"         -> {"absent", "int0", "intPos", "intNeg"}
     [] t = "float"       -> {"absent", "float", "float0"}
     [] t = "bool"        -> {"absent", "boolT", "boolF"}
-    [] t = "OptStr"      -> {"absent", "none", "str", "strEmpty"}            \* falsy explicit defaults under Optional[..] included
+    [] t = "OptStr"      -> {"absent", "none", "str", "strEmpty", "strNum"}            \* falsy explicit defaults under Optional[..] included
     [] t = "OptInt"      -> {"absent", "none", "intPos", "intNeg", "int0"}
     [] t = "OptBool"     -> {"absent", "none", "boolT", "boolF"}
     [] t = "ListStr"     -> {"absent", "none", "code"}
     [] t = "LitStr"      -> {"absent", "str"}
     [] t = "LitInt"      -> {"absent", "intPos"}
-    [] t = "UnionIntStr" -> {"absent", "intPos", "str"}
+    [] t = "UnionIntStr" -> {"absent", "intPos", "str", "strNum"}
     [] t = "TupleIntStr" -> {"absent", "code"}
     [] t = "Dotted"      -> {"absent", "none", "code"}
     [] t = KwTyp         -> {"absent", "none"}
@@ -50,7 +51,7 @@ TypeOfDef(d) ==
   CASE d \in {"int0", "intPos", "intNeg"} -> "int"
     [] d \in {"float", "float0"}          -> "float"
     [] d \in {"boolT", "boolF"}           -> "bool"
-    [] d \in {"str", "strEmpty"}          -> "str"
+    [] d \in {"str", "strEmpty", "strNum"} -> "str"
     [] OTHER                              -> "none"
 
 \* zero value of a type (documented normalisation N5: simple_types table of the code base)
